@@ -17,4 +17,105 @@ theorem udpClamp_translated (s : Nat) : udpClamp s = Translated.c09_udpClamp s :
   unfold udpClamp Translated.c09_udpClamp udpFloor udpMax
   by_cases h1 : s < 512 <;> by_cases h2 : s > 65507 <;> simp [h1, h2, Id.run] <;> first | rfl | omega
 
+/-! ### the per-section loop body of `Msg.Pack`: the fit test, the skip, the OPT budget -/
+
+/-- canonical form of the fit test `size > 0 && off+x.Len() > size` (questions, answers, authorities, additionals) -/
+theorem skipCondQ_eq (size off len : Nat) : Translated.c09_skipCondQ size off len = decide (0 < size ∧ size < off + len) := by
+  unfold Translated.c09_skipCondQ
+  by_cases h1 : 0 < size <;> by_cases h2 : size < off + len <;> simp [h1, h2] <;> omega
+theorem skipCondAn_eq (size off len : Nat) : Translated.c09_skipCondAn size off len = decide (0 < size ∧ size < off + len) := by
+  unfold Translated.c09_skipCondAn
+  by_cases h1 : 0 < size <;> by_cases h2 : size < off + len <;> simp [h1, h2] <;> omega
+theorem skipCondNs_eq (size off len : Nat) : Translated.c09_skipCondNs size off len = decide (0 < size ∧ size < off + len) := by
+  unfold Translated.c09_skipCondNs
+  by_cases h1 : 0 < size <;> by_cases h2 : size < off + len <;> simp [h1, h2] <;> omega
+theorem skipCondAr_eq (size off len : Nat) : Translated.c09_skipCondAr size off len = decide (0 < size ∧ size < off + len) := by
+  unfold Translated.c09_skipCondAr
+  by_cases h1 : 0 < size <;> by_cases h2 : size < off + len <;> simp [h1, h2] <;> omega
+
+/-- the test the model's section loops make (`limit = none` ⇔ Go's `size ≤ 0`) -/
+theorem limit_test (limit : Option Nat) (hpos : ∀ sz, limit = some sz → 0 < sz) (off len : Nat) :
+    decide (0 < limit.getD 0 ∧ limit.getD 0 < off + len) =
+      (match limit with | some size => decide (off + len > size) | none => false) := by
+  cases limit with
+  | none => simp
+  | some sz => have := hpos sz rfl; simp [this]
+
+/-- ONE iteration of the questions loop of `Msg.Pack`: the model's `packQuestionsLoop` skips (count + 1, i.e.
+    `h.questions--` and TC) exactly when the translated fit test says so, and packs otherwise -/
+theorem packQuestionsLoop_cons_translated (limit : Option Nat) (hpos : ∀ sz, limit = some sz → 0 < sz)
+    (q : Question) (qs : List Question) (s : PState) :
+    packQuestionsLoop limit (q :: qs) s =
+      if Translated.c09_skipCondQ (limit.getD 0) (12 + s.body.length) (questionLen q) then
+        (packQuestionsLoop limit qs s >>= fun r => .ok (r.1, r.2 + 1))
+      else
+        (packQuestion (12 + s.body.length) s.tbl q >>= fun r => packQuestionsLoop limit qs ⟨s.body ++ r.1, r.2⟩) := by
+  rw [skipCondQ_eq, limit_test limit hpos]
+  simp only [packQuestionsLoop]
+  cases limit with
+  | none =>
+    simp only [Bool.false_eq_true, if_false]
+  | some sz =>
+    simp only [decide_eq_true_eq]
+
+/-- ONE iteration of the record loops (answers; the authorities and additionals loops have the same test:
+    `skipCondNs_eq`, `skipCondAr_eq`) -/
+theorem packResourcesLoop_cons_translated (limit : Option Nat) (hpos : ∀ sz, limit = some sz → 0 < sz)
+    (r : Resource) (rs : List Resource) (s : PState) :
+    packResourcesLoop limit (r :: rs) s =
+      if Translated.c09_skipCondAn (limit.getD 0) (12 + s.body.length) (resourcePackLen r) then
+        (packResourcesLoop limit rs s >>= fun x => .ok (x.1, x.2 + 1))
+      else
+        (packResource (12 + s.body.length) s.tbl r >>= fun x => packResourcesLoop limit rs ⟨s.body ++ x.1, x.2⟩) := by
+  rw [skipCondAn_eq, limit_test limit hpos]
+  simp only [packResourcesLoop]
+  cases limit with
+  | none =>
+    simp only [Bool.false_eq_true, if_false]
+  | some sz =>
+    simp only [decide_eq_true_eq]
+
+theorem skipCond_same (size off len : Nat) :
+    Translated.c09_skipCondNs size off len = Translated.c09_skipCondAn size off len ∧
+    Translated.c09_skipCondAr size off len = Translated.c09_skipCondAn size off len := by
+  rw [skipCondNs_eq, skipCondAr_eq, skipCondAn_eq]; exact ⟨rfl, rfl⟩
+
+/-- `size -= edns0Opt.packLen()` (an `int` that may become ≤ 0, which disables the limit): the model's budget -/
+theorem optBudget_translated (size len : Nat) :
+    (if size > len then some (size - len) else none) =
+      (if Translated.c09_optBudget size len > 0 then some (Translated.c09_optBudget size len).toNat else none) := by
+  have e : Translated.c09_optBudget size len = (size : Int) - (len : Int) := by
+    unfold Translated.c09_optBudget; rfl
+  rw [e]
+  by_cases h : size > len
+  · have h2 : (size : Int) - (len : Int) > 0 := by omega
+    simp only [h, h2, if_true]
+    congr 1; omega
+  · have h2 : ¬ (size : Int) - (len : Int) > 0 := by omega
+    simp only [h, h2, if_false]
+
+/-- `h.bits |= headerBitTC` -/
+theorem skipBits_translated (bits : Nat) : Translated.c09_skipBits bits = Nat.lor bits headerBitTC := by
+  unfold Translated.c09_skipBits headerBitTC
+  simp [Id.run]
+  rfl
+
+/-- the four `len(m.<Section>) > int(^uint16(0))` guards at the top of `Msg.Pack` are the model's `length > 65535` -/
+theorem tooMany_translated (n : Nat) :
+    decide (n > 65535) = Translated.c09_tooManyQ n ∧ decide (n > 65535) = Translated.c09_tooManyAn n ∧
+    decide (n > 65535) = Translated.c09_tooManyNs n ∧ decide (n > 65535) = Translated.c09_tooManyAr n := by
+  have hc : (65536 - 1 - (0 % 65536)) = 65535 := by decide
+  unfold Translated.c09_tooManyQ Translated.c09_tooManyAn Translated.c09_tooManyNs Translated.c09_tooManyAr
+  by_cases h : n > 65535 <;> simp [hc, h] <;> omega
+
+/-- the guard of `packMsg` in terms of the translated conditions -/
+theorem packMsg_guard_translated (m : Msg) :
+    decide (m.questions.length > 65535 ∨ m.answers.length > 65535 ∨ m.authorities.length > 65535
+      ∨ m.additionals.length > 65535) =
+      (Translated.c09_tooManyQ m.questions.length || Translated.c09_tooManyAn m.answers.length ||
+        Translated.c09_tooManyNs m.authorities.length || Translated.c09_tooManyAr m.additionals.length) := by
+  rw [← (tooMany_translated m.questions.length).1, ← (tooMany_translated m.answers.length).2.1,
+    ← (tooMany_translated m.authorities.length).2.2.1, ← (tooMany_translated m.additionals.length).2.2.2]
+  simp [Bool.or_assoc]
+
 end MosVerif.Wire
